@@ -267,23 +267,31 @@ class Machine:
 
     # -- observing ----------------------------------------------------------------
     def locations(self):
-        """{id: [mtime of every storage location in the repository's own object dir]}"""
-        from dulwich.repo import Repo
+        """{id: [mtime of every storage location in the repository's own object dir]} (read from the directory
+        layout and through the public Pack API, not through store internals)"""
+        from dulwich.object_format import DEFAULT_OBJECT_FORMAT
+        from dulwich.pack import Pack
 
         out = {}
-        with warnings.catch_warnings():
-            warnings.simplefilter("ignore")
-            r = Repo(self.path)
-            try:
-                s = r.object_store
-                for sha in s._iter_loose_objects():
-                    out.setdefault(sha, []).append(os.path.getmtime(s._get_shafile_path(sha)))
-                for p in s.packs:
-                    m = os.path.getmtime(p._data_path)
-                    for sha in p:
-                        out.setdefault(sha, []).append(m)
-            finally:
-                r.close()
+        od = os.path.join(self.path, ".git", "objects")
+        for d in os.listdir(od):
+            if len(d) == 2 and all(c in "0123456789abcdef" for c in d):
+                for f in os.listdir(os.path.join(od, d)):
+                    if len(f) == 38 and all(c in "0123456789abcdef" for c in f):
+                        out.setdefault((d + f).encode(), []).append(os.path.getmtime(os.path.join(od, d, f)))
+        pd = os.path.join(od, "pack")
+        if os.path.isdir(pd):
+            with warnings.catch_warnings():
+                warnings.simplefilter("ignore")
+                for f in sorted(os.listdir(pd)):
+                    if f.endswith(".pack") and os.path.exists(os.path.join(pd, f[:-5] + ".idx")):
+                        m = os.path.getmtime(os.path.join(pd, f))
+                        p = Pack(os.path.join(pd, f[:-5]), object_format=DEFAULT_OBJECT_FORMAT)
+                        try:
+                            for sha in p:
+                                out.setdefault(sha, []).append(m)
+                        finally:
+                            p.close()
         return out
 
     def snapshot(self):
@@ -401,7 +409,9 @@ def run_case(ctx, ops, check="machine"):
             fresh_unreach = {i for i, ms in locs.items() if i not in reach and all(now - t < 1800 for t in ms)}
             n_packs = len([f for f in os.listdir(os.path.join(m.store().path, "pack")) if f.endswith(".pack")]) if os.path.isdir(os.path.join(m.store().path, "pack")) else 0
             n_loose = sum(1 for i, ms in locs.items())
-            if n_packs and any(True for _ in m.store()._iter_loose_objects()) and any(i not in reach for i in locs):
+            od = os.path.join(m.path, ".git", "objects")
+            has_loose = any(len(d) == 2 and os.listdir(os.path.join(od, d)) for d in os.listdir(od) if len(d) == 2)
+            if n_packs and has_loose and any(i not in reach for i in locs):
                 nontrivial = True
             labels.add("maint:" + op[0])
             failed = None
